@@ -382,8 +382,8 @@ fn groups(g: &mut Groups) {
     super::e3::c15_groups(g);
     g.prop("cli_env", 1_200, 60_000, || cli_case(), check_cli);
     // The same route with the command line parsed in this process (hook `__verif::cli`).
-    g.prop("cli_env_inproc", 10_000, 500_000, || cli_case(), |c| twin::with_cli_in_process(|| check_cli(c)));
+    g.prop("cli_env_inproc", 20_000, 500_000, || cli_case(), |c| twin::with_cli_in_process(|| check_cli(c)));
     // Builder calls made before `config_with_args()` are the lowest run-time
     // source: flag over variable over builder, per field (C03's generator and check).
-    g.prop("builder_flag_env_inproc", 8_000, 400_000, || super::c03::builder_cli_case(), |c| twin::with_cli_in_process(|| super::c03::check_builder_cli(c)));
+    g.prop("builder_flag_env_inproc", 16_000, 400_000, || super::c03::builder_cli_case(), |c| twin::with_cli_in_process(|| super::c03::check_builder_cli(c)));
 }
